@@ -289,7 +289,9 @@ def l2_gen(seed, families, big):
             if recent_undef and r.chance(1, 2):
                 n = r.pick(recent_undef)
             if r.chance(1, 4):
-                ops.append(["src", "fdef", n, body(n) or "7", 0])
+                # (function-like definitions only in the source: `-D'f(x)=...'` is a gcc extension that chibicc does not
+                # implement -- it defines an unreachable object-like macro named "f(x)" -- and the property does not ask for it)
+                ops.append(["src", r.pick(["fdef", "fdef", "fdef0", "fdef2", "fdefv", "fdefn"]), n, body(n) or "7", r.below(4)])   # last field: which parameter names
             else:
                 ops.append(["src", "def", n, body(n), 0])
         elif x < wdef + wundef:
@@ -312,6 +314,12 @@ def l2_render(plan):
     args, src, exp = [], [], []
     pid = 0
     for where, kind, n, b, sep in plan["ops"]:
+        FSHAPE = {"fdef": ("(x)", " x", "fn1"), "fdef0": ("()", "", "fn0"), "fdef2": ("(x,y)", " y x", "fn2"), "fdefv": ("(x,...)", " __VA_ARGS__ x", "fnv"), "fdefn": ("(args...)", " args", "fnn")}
+        if where == "arg" and kind in FSHAPE:
+            ps, tail, tag = FSHAPE[kind]
+            args.append("-D%s%s=%s%s" % (n, ps, b, tail))
+            model[n] = (tag, b)
+            continue
         if where == "arg":
             if kind == "undef":
                 args += ["-U", n] if sep else ["-U" + n]
@@ -324,9 +332,15 @@ def l2_render(plan):
         if kind == "def":
             src.append("#define %s %s" % (n, b))
             model[n] = ("obj", b)
-        elif kind == "fdef":
-            src.append("#define %s(x) %s x" % (n, b))
-            model[n] = ("fn", b)
+        elif kind in FSHAPE:
+            ps, tail, tag = FSHAPE[kind]
+            # parameter names change from one definition to the next (x,y / a,b / y,x / p,q); the expansion must not care
+            px, py = [("x", "y"), ("a", "b"), ("y", "x"), ("p", "q")][sep % 4]
+            va = ["args", "rest", "args", "va"][sep % 4]
+            ps = ps.replace("x", "\0").replace("y", py).replace("\0", px).replace("args", va)
+            tail = " ".join({"x": px, "y": py, "args": va}.get(t, t) for t in tail.split())
+            src.append("#define %s%s %s %s" % (n, ps, b, tail))
+            model[n] = (tag, b)
         elif kind == "undef":
             src.append("#undef %s" % n)
             model.pop(n, None)
@@ -353,22 +367,33 @@ def l2_render(plan):
                 if d and model[n][0] == "obj":
                     e = model[n][1]
                 else:
-                    e = n
+                    e = n   # undefined, or function-like without an argument list: left alone
                 exp.append(('"X" %d %s ;' % (pid, e)))
             elif kind == "probe_call":
-                src.append('"C" %d %s(7) ;' % (pid, n))
-                if d and model[n][0] == "fn":
+                # the call is spelt with as many arguments as the current definition takes (anything goes for the others)
+                shape = model[n][0] if d else "none"
+                call = {"fn0": "()", "fn1": "(7)", "fn2": "(7,8)", "fnv": "(7,8,9)", "fnn": "(7,8)"}.get(shape, "(7)")
+                src.append('"C" %d %s%s ;' % (pid, n, call))
+                if shape == "fn0":
+                    e = model[n][1]
+                elif shape == "fn1":
                     e = model[n][1] + " 7"
+                elif shape == "fn2":
+                    e = model[n][1] + " 8 7"
+                elif shape == "fnv":
+                    e = model[n][1] + " 8,9 7"
+                elif shape == "fnn":
+                    e = model[n][1] + " 7,8"
                 elif d:
-                    e = model[n][1] + "(7)"
+                    e = model[n][1] + call
                 else:
-                    e = n + "(7)"
+                    e = n + call
                 exp.append('"C" %d %s ;' % (pid, e))
     return args, "\n".join(src) + "\n", exp
 
 
 def norm(line):
-    return " ".join(line.replace("(", " ( ").replace(")", " ) ").split())
+    return " ".join(line.replace("(", " ( ").replace(")", " ) ").replace(",", " , ").split())
 
 
 def l2_exec(cc, sdir, wid, plan):
@@ -423,7 +448,7 @@ def l2_minimise(cc, sdir, wid, plan, cls):
     # simplify: function-like -> object-like, separate-arg -> joined
     for i in range(len(ops)):
         t = [list(o) for o in ops]
-        if t[i][1] == "fdef":
+        if t[i][1].startswith("fdef"):
             t[i][1] = "def"
         t[i][4] = 0
         if still(t):
@@ -452,7 +477,7 @@ def l2_worker(cc, sdir, wid, master, start, step, total, families, big_every, de
         for o in plan["ops"]:
             if o[1] == "undef":
                 und.add(o[2])
-            elif o[1] in ("def", "fdef") and und and (o[2] in und or len(und) > 0):
+            elif (o[1] == "def" or o[1].startswith("fdef")) and und and (o[2] in und or len(und) > 0):
                 if o[2] in und:
                     res["redef_after_undef"] += 1
                 nt = True
